@@ -161,11 +161,29 @@ static void obs_text(vh_buf_t * b, const obs_t * o) {
 /* service-request announcements seen during the current operation, with the status byte read back
  * from the library at the moment of the call */
 static struct { unsigned n; uint16_t val[16], live[16]; } srq;
+static int g_srq_handler_acts, g_in_srq_handler;
 static scpi_result_t my_control(scpi_t * context, scpi_ctrl_name_t ctrl, scpi_reg_val_t val) {
     if (ctrl == SCPI_CTRL_SRQ) {
         if (srq.n < 16) { srq.val[srq.n] = val; srq.live[srq.n] = SCPI_RegGet(context, SCPI_REG_STB); }
         srq.n++;
     }
+#if MON11
+    /* an application's service-request handler may service the request at once on the same context (clear the enable mask, read/clear
+     * the event register, empty the error queue, *CLS): the summary equations must hold for the state all that leaves behind */
+    if (g_srq_handler_acts && ctrl == SCPI_CTRL_SRQ && !g_in_srq_handler) {
+        static unsigned act;
+        g_in_srq_handler = 1;
+        switch (act++ % 5) {
+            case 0: SCPI_RegSet(context, SCPI_REG_SRE, 0); break;
+            case 1: SCPI_RegSet(context, SCPI_REG_ESR, 0); break;
+            case 2: SCPI_ErrorClear(context); break;
+            case 3: SCPI_CoreCls(context); break;
+            default: SCPI_RegClearBits(context, SCPI_REG_SRE, val); break;
+        }
+        g_in_srq_handler = 0;
+        vh_count("c11.service_request_handler_cleared_status_on_the_same_context", 1);
+    }
+#endif
     /* the statement does not make the registers depend on what the application's callback answers: vary it */
     { static unsigned turn; static const scpi_result_t answers[4] = { SCPI_RES_OK, SCPI_RES_ERR, SCPI_RES_OK, (scpi_result_t) 0 }; return answers[turn++ & 3]; }
 }
@@ -746,7 +764,7 @@ static void rnd_op(vh_rng_t * rng, op_t * op) {
 #define RING 8
 static void walk_run(uint64_t idx, vh_rng_t * rng) {
     int qcap = 1 + (int) vh_below(rng, 4), step, f;
-    vh_ctx_t * v = (g_no_error_cb = (idx % 4 == 3), new_ctx(qcap));
+    vh_ctx_t * v = (g_no_error_cb = (idx % 4 == 3), g_srq_handler_acts = (MON11 && idx % 5 == 4), new_ctx(qcap));
     op_t ring[RING]; obs_t b, a;
     vh_case_desc("random walk of %d operations, queue capacity %d", WALK_STEPS, qcap);
     observe(v->ctx, &a);
